@@ -37,6 +37,8 @@ type Enc struct {
 	nextCell    int
 	escaped     map[*ssa.Alloc]string // allocs that must live on the heap
 	escapedGrew bool
+	fldIDs      map[string]int
+	published   []publishedLoc // heap-resident locals whose boxed address was stored in memory
 	allocN      int
 	allocRefs   []T
 
@@ -136,6 +138,11 @@ type loopInfo struct {
 	frame     *Frame
 	headState *State // state assumed at head (after havoc)
 	headPhis  map[ssa.Value]Val
+}
+
+type publishedLoc struct {
+	ref T
+	typ types.Type
 }
 
 func (e *Enc) note(a string) { e.assumps[a] = true }
